@@ -484,6 +484,32 @@ def div_zero_rule(ctx, fb):
             if not allg:
                 ctx.report("C08-vector", "div/rational-denominator-unguarded", "a ratio is built whose denominator has a "
                            "factor that is not tested for zero", where_of(f, span=s["span"]))
+    # ratio constructors reached through a helper (e.g. a sign-normalising constructor): the argument that
+    # becomes the denominator must be guarded at the call site
+    for b, t in f.calls():
+        g = fb.by_path(callee(t) or "")
+        if g is None or f.blocks[b]["cleanup"]:
+            continue
+        pg = Prov(g)
+        den_params = set()
+        for bb, i, s in g.stmts():
+            rv = s.get("rv") or {}
+            if s["k"] == "assign" and rv.get("k") == "aggregate" and rv["kind"].get("variant") == "Rational" \
+                    and rv["kind"]["k"] == "adt" and mir.norm(rv["kind"]["adt"]).endswith("values::Number"):
+                l = mir.op_local(rv["ops"][1])
+                if l is not None:
+                    den_params |= {a for a in range(1, g.arg_count + 1) if a in pg.taint_reach(l)}
+        for k in sorted(den_params):
+            n += 1
+            den = t["args"][k - 1]
+            factors = _factors(f, den)
+            allg = all(guarded(x, b) for x in factors) and bool(factors)
+            ctx.inst("C08-vector", "div/Rational-denominator-via-%s" % g.name.rsplit("::", 1)[-1],
+                     {"factors": [mir.trace_access(f, x) for x in factors], "guarded": allg})
+            ctx.oblige(allg)
+            if not allg:
+                ctx.report("C08-vector", "div/rational-denominator-unguarded", "a ratio is built (through %s) whose denominator "
+                           "has a factor that is not tested for zero" % g.name, where_of(f, t))
     if n < 3:
         ctx.report("C08-vector", "div/floor", "expected the integer and rational division sites in Div::div (found %d)" % n, where_of(f))
     if not any(v == "DivisionByZero" for _, _, _, _, v in mir.aggregates(fb.find("values::check_division_by_zero"))):
